@@ -64,7 +64,16 @@ def check_case(case):
             kw["fail_threshold"] = case["fail"]
         for pr, pz in case.get("pre", ()):
             alpha.call(qartod.density_inversion_test, alpha.nd(pr), alpha.nd(pz), **kw)
-        out = alpha.call(qartod.density_inversion_test, alpha.nd(rho), alpha.nd(z), **kw)
+        rin, zin = alpha.nd(rho), alpha.nd(z)
+        if case.get("carrier") == "ma":
+            # density and depth as masked arrays; a masked slot hides a finite value that would make / break an inversion
+            import numpy as np
+
+            mr = [v == alpha.NAN for v in rho]
+            mz = [v == alpha.NAN for v in z]
+            rin = np.ma.MaskedArray(np.array([-50.0 if m else float(v) for v, m in zip(rho, mr)]), mask=mr)
+            zin = np.ma.MaskedArray(np.array([(15.0 + i) if m else float(v) for i, (v, m) in enumerate(zip(z, mz))]), mask=mz)
+        out = alpha.call(qartod.density_inversion_test, rin, zin, **kw)
         acceptable = R.density_inversion(alpha.ref(rho), alpha.ref(z), case["suspect"], case["fail"])
         zmiss = any(v == alpha.NAN for v in z)
         vs, obs = judge_flags(PROP, "density_inversion_test", out, acceptable, len(rho),
@@ -155,6 +164,9 @@ def run_task(task, acc):
                             for s in (THR_SMALL if (n <= 3 or FULL4) else THR_MISS):
                                 for f in (THR_SMALL if (n <= 3 or FULL4) else THR_MISS):
                                     yield dict(fn="density", rho=rho, z=zz, suspect=s, fail=f)
+                            if n <= 3:
+                                yield dict(fn="density", rho=rho, z=zz, suspect=-0.5, fail=-1.0, carrier="ma")
+                                yield dict(fn="density", rho=rho, z=zz, suspect=0.0, fail=None, carrier="ma")
         run_cases(acc, gen(), check_case)
     else:
         _, n = task
